@@ -9,7 +9,7 @@
   indexer and dtype rules are modelled, not verified (harness/props/c01.py ASSUMPTIONS).
 
   (a) chunk grids      C01_assemble_blocks, C01_index_in_exactly_one_block, C01_get_item_regular, C01_block_id_roundtrip
-  (b) reductions       C01_reduce_groups_partition(_nd), C01_reduce_tree_correct
+  (b) reductions       C01_reduce_groups_partition(_nd), C01_reduce_tree_correct, C01_argmax_first
   (c) one-to-one ops   C01_repeat_correct(_1d), C01_concat_slices_correct, C01_unstack_correct, C01_reshape_key_bijective,
                        C01_stack_correct_partial / C01_stack_full_fails   (known defect: differing chunkings)
   (d) selections       C01_selection_correct(_nd), C01_rechunk_correct(_nd), C01_index_slice_correct, C01_flip_correct
@@ -95,6 +95,21 @@ theorem C01_reduce_tree_correct {β : Type} (op : β → β → β)
     simp [List.map_map, Function.comp_def]
   rw [h2]
   exact ofold_cons op _ _
+
+/-- `argmax` (arg_reduction): with the `(index, value)` candidate encoding — candidate `i` is the first
+maximum of block `i` with its absolute index — the tree returns the *first* maximal candidate in block order
+(every earlier candidate is strictly smaller, every later one not larger), as `np.argmax` does.  The combine
+step is associative, so the tree theorem applies. -/
+theorem C01_argmax_first (k d n : Nat) (hk : 0 < k) (hpow : n + 1 ≤ k ^ d) (cand : Nat → Nat × Nat) :
+    ∃ r pre post, (treeReduce argmaxCombine k d (n + 1) (fun i => some (cand i))).2 0 = some r
+      ∧ (List.range (n + 1)).map cand = pre ++ r :: post
+      ∧ (∀ y ∈ pre, y.2 < r.2) ∧ (∀ y ∈ post, y.2 ≤ r.2) := by
+  have ht := (C01_reduce_tree_correct argmaxCombine argmaxCombine_assoc k d n hk hpow cand).2
+  obtain ⟨pre, post, he, hp, hm⟩ :=
+    argmax_fold_first ((List.range n).map (fun i => cand (i + 1))) (cand 0) [] [] (by simp) (by simp)
+  refine ⟨_, pre, post, ht, ?_, hp, hm⟩
+  rw [← he, List.range_succ_eq_map]
+  simp [List.map_map, Function.comp_def]
 
 /-! ## (c) one-to-one families -/
 
@@ -247,6 +262,8 @@ example : (List.range (nblocks 7 2)).map (groupKeys 2 7) = [[0, 1], [2, 3], [4, 
 example : partialReduceKeys [2, 1] [5, 3] [2, 1] = [[4, 1]] ∧ AllPos [2, 1] := by simp [AllPos]; decide
 example : 6 + 1 ≤ 2 ^ 3 := by decide
 example : (treeReduce (· ++ ·) 2 3 7 (fun i => some [i])).2 0 = some [0, 1, 2, 3, 4, 5, 6] := by decide
+-- argmax candidates (index, value) of 5 blocks: the first of the two maxima (value 9) wins
+example : (treeReduce argmaxCombine 2 3 5 (fun i => some ([(1, 4), (3, 9), (4, 2), (7, 9), (8, 1)].getD i (0, 0)))).2 0 = some (3, 9) := by decide
 -- repeat: 5 elements in chunks of 2, repeated 3 times
 example : (List.range 15).map (repeatOut1 (fun x => x) 3 2) = [0, 0, 0, 1, 1, 1, 2, 2, 2, 3, 3, 3, 4, 4, 4] := by decide
 example : ([2, 3] : List Nat)[1]? = some 3 := by decide
